@@ -18,7 +18,14 @@ RULE = ('Per distribution family (standard normal, normal, lognormal, exponentia
         'scipy distributions, Poisson, geometric, negative binomial in both parametrisations, arbitrary discrete as scipy object and as '
         'pmf dict): random parameters (uniform / multiples of 1/4 / log-uniform), a sorted grid of 8-12 arguments x across and beyond the '
         'bulk of the distribution (integers for the discrete families), plus a malformed stream (non-integer x, x outside [a,b], '
-        'inconsistent negative-binomial arguments). One case = one (family, parameters, x grid) with first- and second-order pairs. '
+        'inconsistent negative-binomial arguments). Arbitrary discrete scipy objects beyond the families with a closed form: frozen randint / binom / '
+        'hypergeom / betabinom / boltzmann / planck / logser / nhypergeom and Poisson / geometric / negative binomial, each with loc = 0 or a '
+        'shift (geometric also loc = -1), and a user-defined rv_discrete subclass given by its pmf; x = 0, 1, bottom of the support, mean, top of '
+        'the support and 1-4 above it, and random integers in between. Arbitrary continuous distributions with a heavy right tail on a support '
+        'bounded below (pareto, lomax, invgamma, fisk, burr12, genpareto, lognormal with sigma > 1.2; tail index >= 1.5, variance finite '
+        'or infinite; random loc and scale): x at 6 quantiles 0.001 - 0.99999 and below the support; there the complementary values are compared '
+        'with the defining integrals over [bottom of the support, x], all four values are checked for finiteness, sign and monotonicity. '
+        'One case = one (family, parameters, x grid) with first- and second-order pairs. '
         'non-trivial = both n and nbar strictly positive at some grid point; distinct = distinct (family, parameters).')
 TOL = 1e-7
 TOL_GENERIC = 2e-6      # continuous_loss / continuous_second_loss integrate with scipy quad without break points: densities with kinks (triangular) reach ~5e-7
@@ -221,6 +228,143 @@ def o_discrete_family(o, rng, fam):
     return case, nt
 
 
+# ---- arbitrary discrete distributions given as scipy objects (no closed form here): other families, shifted supports, finite supports
+GENERIC_DISCRETE = ['randint', 'binom', 'hypergeom', 'betabinom', 'boltzmann', 'planck', 'logser', 'nhypergeom', 'poisson', 'geom', 'nbinom', 'custom-pmf']
+# (zipf / yulesimon / zipfian-like power tails are left out: the direct summation used as the oracle would itself have to be truncated)
+
+
+def gen_generic_discrete(rng):
+    k = rng.choice(GENERIC_DISCRETE)
+    loc = rng.choice([0, 0, rng.randint(1, 15), rng.randint(1, 15)])          # a frozen scipy distribution may be shifted; the documented domain is a non-negative support
+    if k == 'randint': lo = rng.randint(0, 8); a = [lo, lo + rng.randint(1, 40)]
+    elif k == 'binom': a = [rng.randint(1, 60), rng.uniform(.05, .95)]
+    elif k == 'hypergeom': M = rng.randint(5, 60); a = [M, rng.randint(1, M), rng.randint(1, M)]
+    elif k == 'betabinom': a = [rng.randint(1, 40), rng.uniform(.3, 5), rng.uniform(.3, 5)]
+    elif k == 'boltzmann': a = [rng.uniform(.05, 1.5), rng.randint(2, 40)]
+    elif k == 'planck': a = [rng.uniform(.05, 1.5)]
+    elif k == 'logser': a = [rng.uniform(.1, .95)]
+    elif k == 'nhypergeom': M = rng.randint(5, 40); n = rng.randint(1, M - 1); a = [M, n, rng.randint(1, M - n)]
+    elif k == 'poisson': a = [rng.choice([rng.uniform(.3, 30), float(rng.randint(1, 30))])]
+    elif k == 'geom': a = [rng.uniform(.05, .9)]; loc = rng.choice([-1, loc, loc])       # geom(p, loc=-1): number of failures, support from 0
+    elif k == 'nbinom': a = [rng.uniform(.5, 9), rng.uniform(.05, .9)]
+    else: a = [rng.uniform(.1, .8), rng.randint(0, 6)]; loc = 0                          # user-defined subclass: geometric pmf on {start, start+1, ...}, as in the docstring of discrete_loss
+    return k, a, loc
+
+
+def mk_discrete(k, a, loc):
+    from scipy import stats
+    if k == 'custom-pmf':
+        p, start = a
+        class my_geom(stats.rv_discrete):
+            def _pmf(self, y): return np.where(y >= start, ((1 - p) ** (y - start)) * p, 0)
+        return my_geom(a=start)
+    return getattr(stats, k)(*a, loc=loc)
+
+
+def check_generic_discrete(o, case, rng=None):
+    """case: family 'discrete-scipy:<kind>', parameters, loc [, xs]. Oracle = direct summation of the pmf over the true support."""
+    k = case['family'].split(':', 1)[1]; L = lf()
+    dist = mk_discrete(k, case['parameters'], case['loc'])
+    lo, hi = dist.support(); lo = int(lo)
+    if math.isfinite(hi): hs = int(hi)
+    else:                                                   # all infinite-support families here have (at least) geometric tails: sum until the pmf is negligible
+        hs = lo + 64
+        while not (float(dist.pmf(hs)) < 1e-22 and float(dist.pmf(hs // 2)) < 1e-11): hs = lo + 2 * (hs - lo)
+    ks = np.arange(lo, hs + 1); pm = dist.pmf(ks)
+    top = hs if math.isfinite(hi) else int(ks[min(len(ks) - 1, int(np.searchsorted(np.cumsum(pm), 1 - 1e-4)))])
+    mean = float(np.sum(pm * ks)); var = float(np.sum(pm * (ks - mean) ** 2)); sd = math.sqrt(var) if var > 0 else 1.0
+    if 'xs' not in case:
+        case = dict(case, xs=sorted(x for x in {0, 1, lo, lo + 1, int(mean), int(mean) + 1, top, top + 1, top + 2, top + 4} | {rng.randint(0, top + 3) for _ in range(5)} if x >= 0))
+    def t(second):
+        def f(x):
+            up = np.maximum(ks - x, 0); dn = np.maximum(x - ks, 0)
+            if not second: return (float(np.sum(pm * up)), float(np.sum(pm * dn)))
+            return (0.5 * float(np.sum(pm * up * (up - 1))), 0.5 * float(np.sum(pm * dn * (dn + 1))))
+        return f
+    tol = dict(id_tol=1e-7, truth_tol=TOL) if k == 'custom-pmf' else {}        # scipy computes the mean of a user-defined pmf by a truncated sum (~1e-8)
+    nt = family_check(o, 'discrete_loss(distrib)', case, case['xs'], lambda x: o.call('discrete_loss(distrib)', L.discrete_loss, dict(case, x=x), x, dist), None, t(False), mean, discrete=True, scale=sd, **tol)
+    family_check(o, 'discrete_second_loss(distrib)', case, case['xs'], lambda x: o.call('discrete_second_loss(distrib)', L.discrete_second_loss, dict(case, x=x), x, dist), None, t(True), mean,
+                 second=True, var=var, discrete=True, scale=sd, **tol)
+    return case, nt
+
+
+def o_generic_discrete(o, rng):
+    k, a, loc = gen_generic_discrete(rng)
+    return check_generic_discrete(o, dict(family='discrete-scipy:' + k, parameters=a, loc=loc), rng)
+
+
+# ---- arbitrary continuous distributions with a heavy right tail (finite mean, variance finite or infinite), support bounded below
+HEAVY = ['pareto', 'lomax', 'invgamma', 'fisk', 'burr12', 'genpareto', 'lognorm']
+# (loglaplace is left out: its density has a cusp at the scale point and the library integrates without break points -- 2e-6 off there, the accuracy
+#  limit that TOL_GENERIC already allows for triangular densities; that is unrelated to the tail)
+
+
+def gen_heavy_tail(rng):
+    """tail index (the largest finite moment) >= 1.5: mean finite, variance finite or infinite.
+    EXCLUDED, reported to the lead: tail index < 1.5. There the quadrature of continuous_loss over [x, ppf(1 - 1e-10)] (a range of 10^7 and more scale
+    units) loses most of n, e.g. continuous_loss(x, pareto(1.2)) = 1.12 at x = 1.78 (true value 4.36) and 3.20 at x = 6.77 (n increasing in x)."""
+    k = rng.choice(HEAVY)
+    if k in ('pareto', 'lomax', 'invgamma'): a = [rng.choice([rng.uniform(1.5, 2.0), rng.uniform(2.0, 4.0)])]      # tail index a: variance infinite below 2
+    elif k == 'fisk': a = [rng.uniform(1.5, 4)]
+    elif k == 'burr12': a = [rng.uniform(1, 3), rng.uniform(1.5, 2)]                                               # tail index c d
+    elif k == 'genpareto': a = [rng.uniform(.1, .66)]                                                              # tail index 1/c
+    else: a = [rng.uniform(1.2, 2.0)]
+    return k, a, rng.choice([0.0, 0.0, rng.uniform(-20, 50)]), rng.choice([1.0, rng.uniform(.2, 30)])
+
+
+def tail_index(k, a):
+    return {'pareto': a[0], 'lomax': a[0], 'invgamma': a[0], 'fisk': a[0], 'loglaplace': a[0], 'burr12': a[0] * a[-1], 'genpareto': 1 / a[0]}.get(k, math.inf)
+
+
+def lower_moment(dist, x, k, lo, brk):
+    """int_lo^x (x - y)^k f(y) dy -- a proper integral over a bounded interval, split at quantiles"""
+    if x <= lo: return 0.0
+    pts = [lo] + [b for b in brk if lo < b < x] + [x]
+    return sum(quad(lambda y: (x - y) ** k * dist.pdf(y), a, b) for a, b in zip(pts, pts[1:]))
+
+
+def check_heavy_tail(o, case):
+    """case: family 'continuous-heavy-tail:<kind>', parameters, loc, scale [, xs].
+    continuous_loss / continuous_second_loss integrate up to the 1 - 1e-10 quantile only, so for these distributions the values FACING the tail
+    (n, n2) miss the mass beyond it (pareto(2.5): n2 too small by 0.025, about 2%; pareto(2.1): by 3.5 of 9; infinite-variance laws: a finite number
+    instead of +inf) -- reported to the lead as a limitation of the unchanged library; exactly these two comparisons are therefore left out here.
+    Everything else is checked: the complementary values against their defining integrals over [bottom of the support, x], and finiteness, sign and
+    monotonicity of all four values."""
+    from scipy import stats
+    k = case['family'].split(':', 1)[1]; L = lf()
+    dist = getattr(stats, k)(*case['parameters'], loc=case['loc'], scale=case['scale'])
+    lo = float(dist.support()[0]); med = float(dist.ppf(.5)); iqr = float(dist.ppf(.75) - dist.ppf(.25))
+    if 'xs' not in case:
+        case = dict(case, xs=sorted([lo - .5 * iqr] + [float(dist.ppf(q)) for q in (.001, .1, .5, .9, .999, .99999)]))
+    brk = sorted(float(dist.ppf(q)) for q in (1e-9, 1e-6, 1e-3, .05, .25, .5, .75, .95, .999, .99999))
+    nontriv = False
+    for second, sig, fn in ((False, 'continuous_loss', L.continuous_loss), (True, 'continuous_second_loss', L.continuous_second_loss)):
+        prev = None
+        for x in case['xs']:
+            c = dict(case, x=x)
+            v = o.call(sig, fn, c, x, dist)
+            if v is None: continue
+            sc = max(1.0, max(iqr, abs(x - med)) ** (2 if second else 1))
+            if not (math.isfinite(v[0]) and math.isfinite(v[1])):
+                o.chk.fail(sig + '|heavy-tail-not-finite', '%s(%r, %s) = %r' % (sig, x, k, v), c); continue
+            want = (0.5 if second else 1.0) * lower_moment(dist, x, 2 if second else 1, lo, brk)
+            if abs(v[1] - want) > TOL_GENERIC * sc:
+                o.chk.fail(sig + '|heavy-tail-complementary-vs-independent-quadrature', '%s(%r, %s): complementary value %r, defining integral over [%r, x] gives %r' % (sig, x, k, v[1], lo, want), c)
+            if min(v) < -1e-9 * sc: o.chk.fail(sig + '|negative', 'returned %r' % (v,), c)
+            # (where the variance is infinite, n2 = +inf and the number returned -- the integral up to the 1 - 1e-10 quantile -- is huge and only
+            #  accurate to the relative precision of the quadrature: its monotonicity is not examined)
+            if prev is not None and ((v[0] > prev[1][0] + 1e-9 * sc and not (second and tail_index(k, case['parameters']) <= 2)) or v[1] < prev[1][1] - 1e-9 * sc):
+                o.chk.fail(sig + '|not-monotone', 'at x=%r: %r, at x=%r: %r' % (prev[0], prev[1], x, v), c)
+            prev = (x, v)
+            if v[0] > 1e-9 and v[1] > 1e-9: nontriv = True
+    return case, nontriv
+
+
+def o_heavy_tail(o, rng):
+    k, a, loc, scale = gen_heavy_tail(rng)
+    return check_heavy_tail(o, dict(family='continuous-heavy-tail:' + k, parameters=a, loc=loc, scale=scale))
+
+
 def o_geometric_below_support(o, rng):
     """dedicated probe: geometric_loss for a negative integer argument (Poisson and negative binomial handle it)"""
     L = lf(); p = rng.uniform(.1, .9); x = -rng.randint(1, 6)
@@ -294,6 +438,10 @@ def run_oracles(chk, n, do_model=True):
             case, nt = o_discrete_family(o, chk.rng, fam); chk.count('oracle_' + fam); chk.case(case, nt)
     for _ in range(max(3, 2 * n)):
         case, nt = o_discrete_arbitrary(o, chk.rng, model_cases); chk.count('oracle_discrete_pmf+distrib'); chk.case(case, nt)
+    for _ in range(max(6, 3 * n)):
+        case, nt = o_generic_discrete(o, chk.rng); chk.count('oracle_discrete_scipy_object_' + case['family'].split(':')[1] + ('_shifted' if case['loc'] else '')); chk.case(case, nt)
+    for _ in range(max(4, 3 * n // 4)):
+        case, nt = o_heavy_tail(o, chk.rng); chk.count('oracle_continuous_heavy_tail'); chk.case(case, nt)
     for _ in range(3):
         case, nt = o_geometric_below_support(o, chk.rng); chk.count('oracle_geometric_below_support'); chk.case(case, nt)
     malformed(o, chk.rng)
@@ -346,7 +494,9 @@ def run(chk):
         'Section hypotheses (not axioms) of C09_standard_normal_loss_monotone: cdf\' = pdf, pdf\' = -z pdf, 0 <= cdf <= 1',
         'Python oracles: scipy.integrate.quad on pdf-weighted integrands, direct summation of pmfs']
     chk.assume += ['closed form = defining integral/series is proved only for the uniform distribution and the pmf-dict forms; for the other families it is checked numerically (1e-7) -- statements kept as C09_*_statement',
-                   'discrete families are checked for integer arguments x >= 0 and x = -2; discrete_loss(distrib=...) documents F(x) = 0 for x < 0']
+                   'discrete families are checked for integer arguments x >= 0 and x = -2; discrete_loss(distrib=...) documents F(x) = 0 for x < 0',
+                   'heavy right tails (pareto-like, lognormal with sigma > 1.2): continuous_loss / continuous_second_loss stop at the 1 - 1e-10 quantile, so n and n2 miss the tail mass beyond it '
+                   '(a finite number where the variance is infinite); only the complementary values, finiteness, sign and monotonicity are checked there']
     quick = chk.tier == 'quick'
     built = translate_and_build(chk)
     chk.proof()
@@ -371,6 +521,10 @@ def replay(chk, rp):
     # failing inputs of the oracles: re-run the family's oracle (parameters are re-drawn from the replay's seed) -- the
     # recorded case is printed above for direct inspection
     o = O(chk); fam = case.get('family', '')
+    if fam.startswith('discrete-scipy:') or fam.startswith('continuous-heavy-tail:'):       # these cases carry everything needed: re-run exactly the recorded one
+        c = {k: v for k, v in case.items() if k != 'x'}
+        c, _nt = check_generic_discrete(o, c, chk.rng) if fam.startswith('discrete-scipy:') else check_heavy_tail(o, c)
+        chk.case(c); return
     for _ in range(40):
         if fam in [f for f, _ in FAMILIES]: c, _nt = o_continuous_family(o, chk.rng, fam)
         elif fam in [f for f, _ in DISCRETE]: c, _nt = o_discrete_family(o, chk.rng, fam)
